@@ -321,15 +321,39 @@ func hasPrefix(p, pre []string) bool {
 }
 
 // load resolves the value read from address addr as a term.
-func (tb *TermBuilder) load(addr ssa.Value, depth int) *Term {
+func (tb *TermBuilder) load(addr ssa.Value, depth int, at ...ssa.Instruction) *Term {
+	var L ssa.Instruction
+	if len(at) > 0 {
+		L = at[0]
+	}
 	if g, ok := addr.(*ssa.Global); ok {
 		return &Term{Op: "global", Name: gname(g), V: g}
 	}
 	if a, path, ok := rootAlloc(addr); ok {
+		return tb.resolve(a, path, depth, L)
+	}
+	return tb.loadOther(addr, depth)
+}
+
+// at evaluates the content of location alloc+path as seen just before instruction L.
+func (tb *TermBuilder) at(a *ssa.Alloc, path []string, L ssa.Instruction) *Term {
+	return tb.resolve(a, path, 0, L)
+}
+
+func (tb *TermBuilder) resolve(a *ssa.Alloc, path []string, depth int, L ssa.Instruction) *Term {
+	{
 		tb.buildStores()
 		var cands []*Term
-		for _, s := range tb.stores[a] {
+		live := tb.stores[a]
+		if L != nil && L.Parent() == tb.F {
+			live = tb.liveStores(a, path, L)
+		}
+		needZero := L != nil && L.Parent() == tb.F
+		for _, s := range live {
 			_, sp, _ := rootAlloc(s.Addr)
+			if needZero && s.Parent() == tb.F && (pathEq(sp, path) || hasPrefix(path, sp)) && domInstr(s, L) {
+				needZero = false
+			}
 			switch {
 			case pathEq(sp, path):
 				cands = append(cands, tb.term(s.Val, depth+1))
@@ -351,12 +375,31 @@ func (tb *TermBuilder) load(addr ssa.Value, depth int) *Term {
 		}
 		// does the alloc escape by being passed to a call (e.g. json.Unmarshal(&x), decoder.DecodeElement(&e))?
 		for _, r := range *a.Referrers() {
-			if c, ok := r.(ssa.CallInstruction); ok {
-				cands = append(cands, &Term{Op: "outparam", Name: calleeName(c), V: a})
+			ci, ok := r.(ssa.CallInstruction)
+			if !ok {
+				if mi, isMI := r.(*ssa.MakeInterface); isMI {
+					for _, rr := range *mi.Referrers() {
+						if c2, ok := rr.(ssa.CallInstruction); ok && (L == nil || tb.writerLive(a, c2, L)) {
+							cands = append(cands, &Term{Op: "outparam", Name: calleeName(c2), V: a})
+						}
+					}
+				}
+				continue
 			}
+			if L != nil && L.Parent() == tb.F && !tb.writerLive(a, ci, L) {
+				continue
+			}
+			if !calleeMayWrite(ci, a, path) {
+				continue
+			}
+			cands = append(cands, &Term{Op: "outparam", Name: calleeName(ci), V: a})
 		}
 		if len(cands) == 0 {
 			return &Term{Op: "zero", Name: tname(deref(a.Type())) + pathString(path)}
+		}
+		if needZero && !a.Heap {
+			_ = needZero // zero value may still be visible; only reported for non-escaping locals
+			cands = append(cands, &Term{Op: "zero", Name: tname(deref(a.Type())) + pathString(path)})
 		}
 		if len(cands) == 1 {
 			return cands[0]
@@ -374,6 +417,9 @@ func (tb *TermBuilder) load(addr ssa.Value, depth int) *Term {
 		}
 		return &Term{Op: "anyof", Args: out}
 	}
+}
+
+func (tb *TermBuilder) loadOther(addr ssa.Value, depth int) *Term {
 	switch a := addr.(type) {
 	case *ssa.FieldAddr:
 		st := a.X.Type().Underlying().(*types.Pointer).Elem().Underlying().(*types.Struct)
@@ -512,7 +558,7 @@ func (tb *TermBuilder) term1(v ssa.Value, depth int) *Term {
 		return &Term{Op: "binop", Name: op.String(), Args: []*Term{x, y}}
 	case *ssa.UnOp:
 		if v.Op == token.MUL {
-			return tb.load(v.X, d)
+			return tb.load(v.X, d, v)
 		}
 		name := v.Op.String()
 		if v.CommaOk {
@@ -982,12 +1028,18 @@ func funcsSorted(m map[*ssa.Function]bool) []*ssa.Function {
 func isRangeIndex(v ssa.Value) bool {
 	if b, ok := v.(*ssa.BinOp); ok && b.Op == token.ADD {
 		if c, ok := b.Y.(*ssa.Const); ok && c.Value != nil && c.Value.ExactString() == "1" {
-			if p, ok := b.X.(*ssa.Phi); ok && len(p.Edges) == 2 {
-				for k, e := range p.Edges {
-					if c0, ok := e.(*ssa.Const); ok && c0.Value != nil && c0.Value.ExactString() == "-1" && p.Edges[1-k] == ssa.Value(b) {
-						return true
+			if p, ok := b.X.(*ssa.Phi); ok && len(p.Edges) >= 2 {
+				inits, steps := 0, 0
+				for _, e := range p.Edges {
+					if c0, ok := e.(*ssa.Const); ok && c0.Value != nil && c0.Value.ExactString() == "-1" {
+						inits++
+					} else if e == ssa.Value(b) {
+						steps++ // back edges, incl. those of `continue`
+					} else {
+						return false
 					}
 				}
+				return inits == 1 && steps >= 1
 			}
 		}
 	}
@@ -1039,4 +1091,131 @@ func unwrap(v ssa.Value) ssa.Value {
 			return v
 		}
 	}
+}
+
+// liveStores filters the stores into alloc a that may be visible to a load of `path` at L:
+// a store S is dead at L if another store S1 that overwrites at least S's location satisfies
+// S dom S1 dom L (see DESIGN: last dominating store kills earlier dominating ones), or if S cannot reach L.
+func (tb *TermBuilder) liveStores(a *ssa.Alloc, path []string, L ssa.Instruction) []*ssa.Store {
+	all := tb.stores[a]
+	type sp struct {
+		s *ssa.Store
+		p []string
+	}
+	var rel []sp
+	for _, s := range all {
+		_, p, _ := rootAlloc(s.Addr)
+		if pathEq(p, path) || hasPrefix(path, p) || hasPrefix(p, path) {
+			rel = append(rel, sp{s, p})
+		}
+	}
+	var out []*ssa.Store
+	for _, x := range rel {
+		if x.s.Parent() != tb.F {
+			out = append(out, x.s) // store from a closure: keep
+			continue
+		}
+		// reachability S -> L without re-executing the allocation
+		if !tb.writerLive(a, x.s, L) {
+			continue
+		}
+		dead := false
+		for _, y := range rel {
+			if y.s == x.s || y.s.Parent() != tb.F {
+				continue
+			}
+			if hasPrefix(x.p, y.p) && domInstr(x.s, y.s) && domInstr(y.s, L) {
+				dead = true
+				break
+			}
+		}
+		if !dead {
+			out = append(out, x.s)
+		}
+	}
+	return out
+}
+
+// writerLive: can the effect of writer W on alloc a be visible at L? Not if every path W -> L
+// re-executes the allocation instruction (a fresh object per loop iteration).
+func (tb *TermBuilder) writerLive(a *ssa.Alloc, W, L ssa.Instruction) bool {
+	if W.Parent() != L.Parent() || W.Parent() != a.Parent() {
+		return true
+	}
+	wb, lb, ab := W.Block(), L.Block(), a.Block()
+	wi, li, ai := instrIndex(W), instrIndex(L), instrIndex(a)
+	if wb == lb && wi < li {
+		return true
+	}
+	// leaving W's block: if the alloc is later in W's block it is re-executed only on re-entry, fine.
+	// arriving at L's block from outside: barrier if the alloc precedes L in that block.
+	if lb == ab && ai < li {
+		return false
+	}
+	avoid := map[*ssa.BasicBlock]bool{ab: true}
+	if wb == ab {
+		// start after W; A is before W in the same block (an alloc precedes its uses)
+		delete(avoid, ab)
+		avoid[ab] = true
+	}
+	return reachesAvoiding(wb, lb, avoid)
+}
+
+// calleeMayWrite: may the call write the location `path` of alloc a that it receives by pointer?
+// Module callees are summarised by the field paths they store through that parameter; anything
+// else (std, dynamic, pointer passed on) is assumed to write everything.
+func calleeMayWrite(ci ssa.CallInstruction, a *ssa.Alloc, path []string) bool {
+	g := ci.Common().StaticCallee()
+	if g == nil || !inModule(g) || g.Blocks == nil {
+		return true
+	}
+	args := ci.Common().Args
+	for k, arg := range args {
+		if unwrap(arg) != ssa.Value(a) {
+			continue
+		}
+		if k >= len(g.Params) {
+			return true
+		}
+		paths, all := storedPathsThrough(g.Params[k])
+		if all {
+			return true
+		}
+		for _, p := range paths {
+			if hasPrefix(p, path) || hasPrefix(path, p) {
+				return true
+			}
+		}
+	}
+	return false
+}
+
+// storedPathsThrough lists field paths stored through pointer parameter p in its function; all=true if p
+// is used in any way other than FieldAddr-then-store/load or a plain load.
+func storedPathsThrough(p *ssa.Parameter) (paths [][]string, all bool) {
+	var visit func(v ssa.Value, pre []string)
+	visit = func(v ssa.Value, pre []string) {
+		refs := v.Referrers()
+		if refs == nil {
+			return
+		}
+		for _, r := range *refs {
+			switch x := r.(type) {
+			case *ssa.FieldAddr:
+				st := x.X.Type().Underlying().(*types.Pointer).Elem().Underlying().(*types.Struct)
+				visit(x, append(append([]string{}, pre...), "."+st.Field(x.Field).Name()))
+			case *ssa.Store:
+				if x.Addr == v {
+					paths = append(paths, pre)
+				} else {
+					all = true // pointer itself stored somewhere
+				}
+			case *ssa.UnOp, *ssa.DebugRef:
+			default:
+				all = true
+			}
+		}
+	}
+	visit(p, nil)
+	return
 }
